@@ -1,1 +1,21 @@
-fn main() { eprintln!("not built yet"); std::process::exit(2); }
+//! vbc - harness of check C18 (packages and bytecode survive write/read).
+//!   replay <rows>... [--opcodes <opcode.rs>] [--selftest]   S->I for spec/codec/Bytecode.tla (+ opcode coverage)
+//!   pkg-encode / pkg-laws / pkg-child / pkg-bodies           I->S event recording for spec/codec/CodecLaws.tla
+mod pkg;
+mod replay;
+mod sha;
+
+fn main() {
+    let args: Vec<String> = std::env::args().collect();
+    let rest = if args.len() > 2 { &args[2..] } else { &[][..] };
+    let rc = match args.get(1).map(|s| s.as_str()) {
+        Some("replay") | Some("opcodes") => replay::run(rest),
+        Some("pkg-encode") => pkg::encode_cmd(rest),
+        Some("pkg-laws") => pkg::laws_cmd(rest),
+        Some("pkg-child") => pkg::child_cmd(rest),
+        Some("pkg-bodies") => pkg::bodies_cmd(rest),
+        Some("sha256") => { println!("{}", sha::sha256(&std::fs::read(&rest[0]).expect("file"))); 0 }
+        _ => { eprintln!("usage: vbc replay|opcodes|pkg-encode|pkg-laws|pkg-child|pkg-bodies ..."); 2 }
+    };
+    std::process::exit(rc);
+}
